@@ -272,6 +272,17 @@ def run_job(job):
             acc.evaluations += 1
             acc.nontrivial += 1
             acc.check("map", {"data": s.hex(), "what": "wrapped address"}, chk_map)
+        from vf.classes import lookalike_substitutions, bech32_self_referential
+        for _i, _cp, s in lookalike_substitutions(basestr, per_char=2):
+            acc.evaluations += 1
+            acc.nontrivial += 1
+            acc.check("map", {"data": s.hex(), "what": "Unicode lookalike of one character"}, chk_map)
+        if job["idx"] == 2:
+            for hrp, v, n in (("bc", 0, 20), ("tb", 1, 32)):
+                for w, addr in list(bech32_self_referential(hrp, v, n, 1 if v == 0 else B32.BECH32M_CONST, filler(seed, f"c08-self{n}", 40)))[:8]:
+                    acc.evaluations += 1
+                    acc.nontrivial += 1
+                    acc.check("map", {"data": addr.hex(), "what": "segwit address whose checksum characters also occur earlier"}, chk_map)
         acc.sample({"base": basestr.decode()})
     elif part == "keybufs":
         sh, nsh = job["shard"]
